@@ -174,6 +174,26 @@ def install(flags=()):  # noqa: C901, PLR0915
 
     _PATCH_REGISTRATIONS[functools.partial] = _partial_fixed
 
+    # ---- R9: dict union with a CrossHair mapping on the right ---------------
+    # crosshair.simplestructs.MapBase defines `__ror__ = __or__`, so `native_dict | shell_map` let the
+    # LEFT operand's values win (dict union is not commutative).  `dict(x)` under the tracer returns such a
+    # shell map; pipefunc's `defaults | kwargs | bound` then preferred defaults over supplied keywords
+    # (seen as a stale cache key).  Replace by a correct right-union.
+    import crosshair.simplestructs as _ss2
+    from collections.abc import Mapping as _Mapping
+
+    def _map_ror(self, other):
+        if not isinstance(other, _Mapping):
+            raise TypeError
+        out = self.copy()
+        for k in list(out.keys()):
+            del out[k]
+        out.update(other)
+        out.update(self)
+        return out
+
+    _ss2.MapBase.__ror__ = _map_ror
+
     # ---- S9: temporary names are concrete ---------------------------------
     # CrossHair models `random` symbolically, which makes tempfile's candidate names symbolic strings
     # (seen as minutes of z3 time and NotDeterministic errors when pipefunc falls back to
